@@ -45,12 +45,24 @@ func fromOriginLength(length int) int {
 type Origin struct {
 	Buffer []byte
 	Parsed bool
+	// The first residue, if any, that the block cannot hold: a blank, a
+	// line break or another byte that is no printable character would be
+	// taken for layout when the block is read back.
+	odd *byte
 }
 
 // NewOrigin formats a byte slice into GenBank sequence origin format.
 func NewOrigin(p []byte) *Origin {
 	length := len(p)
 	q := make([]byte, toOriginLength(length))
+	var odd *byte
+	for i := range p {
+		if p[i] <= ' ' || p[i] > '~' {
+			c := p[i]
+			odd = &c
+			break
+		}
+	}
 	offset := 0
 	for i := 0; i < length; i += 60 {
 		prefix := fmt.Sprintf("%9d", i+1)
@@ -65,7 +77,7 @@ func NewOrigin(p []byte) *Origin {
 		q[offset] = '\n'
 		offset++
 	}
-	return &Origin{q, false}
+	return &Origin{q, false, odd}
 }
 
 // Bytes converts the GenBank sequence origin into a byte slice.
